@@ -159,3 +159,47 @@ class _Redirect:
 
 
 RedirectMarker = _Redirect()
+
+
+class RyuTopIntrinsics(RyuPairIntrinsics):
+    """R1t: the glue of ryuFtoaShortest (exact-integer shortcut, bounds, choice of q, exactness flags, admissibility of the
+    lower/upper bound incl. the mantissa-parity terms, rounding hint, decimal exponent) = strconv's, with every helper
+    (computeBounds, mulByLog2Log10, mult128bitPow10, divisibleByPower5) the SAME uninterpreted function on both sides
+    (R1f shows the repository's helpers are strconv's) and ryuDigits the injective recorder of its arguments."""
+
+    def _register(self):
+        super()._register()
+        H = PKG + "."
+        B = z3.BitVecSort(64)
+        uf = {
+            "cb": [z3.Function("ryu.cb.%d" % i, B, B, B) for i in range(4)],
+            "log": z3.Function("ryu.log2log10", B, B),
+            "mul": [z3.Function("ryu.mul.m", B, B, B, B), z3.Function("ryu.mul.e", B, B, B, B), z3.Function("ryu.mul.x", B, B, B, z3.BoolSort())],
+            "div5": z3.Function("ryu.div5", B, B, z3.BoolSort()),
+        }
+
+        def compute_bounds(eng, st, fr, args, ins):
+            m, e = bv(args[0], 64), bv(args[1], 64)
+            self.used.add("uf:computeBounds (same function on both sides; R1f.computeBounds)")
+            return tuple(f(m, e) for f in uf["cb"])
+
+        def mul_log(eng, st, fr, args, ins):
+            self.used.add("uf:mulByLog2Log10 (R1f)")
+            return uf["log"](bv(args[0], 64))
+
+        def mult128(eng, st, fr, args, ins):
+            m, e2, q = (bv(a, 64) for a in args[:3])
+            self.used.add("uf:mult128bitPow10 (R1f); assumed: returns a negative exponent (the panic guard that follows it in both copies is not decided here)")
+            re = uf["mul"][1](m, e2, q)
+            st.pc.append(re < 0)
+            return (uf["mul"][0](m, e2, q), re, uf["mul"][2](m, e2, q))
+
+        def div5(eng, st, fr, args, ins):
+            self.used.add("uf:divisibleByPower5 (R1f)")
+            return uf["div5"](bv(args[0], 64), bv(args[1], 64))
+
+        for pre in (H, "strconv."):
+            self.table[pre + "computeBounds"] = compute_bounds
+            self.table[pre + "mulByLog2Log10"] = mul_log
+            self.table[pre + "mult128bitPow10"] = mult128
+            self.table[pre + "divisibleByPower5"] = div5
